@@ -94,6 +94,9 @@ func init() {
 	add("c06-lenmin-mp4-push-dropped", "C06.lenmin", "format/mp4/boxes.go", "\tctx.path = append(ctx.path, pathEntry{typ: typ, data: parentData})\n", "", "no longer holds")
 	// C06.errfirst
 	add("c06-errfirst-defer-close", "C06.errfirst", "pkg/decode/decode.go", "\tr, err := fn(bbBR)\n\tif err != nil {", "\tr, err := fn(bbBR)\n\tdefer r.Close()\n\tif err != nil {", "FieldFormatReaderLen")
+	// C06.loopguard recseek: the visited set of tiff's sub-IFD recursion
+	add("c06-recseek-tiff-not-filled", "C06.loopguard", "format/tiff/tiff.go", "\t\t\t\t\t\tifdSeen[int64(ifdPos)] = struct{}{}\n\t\t\t\t\t\tpos := d.Pos()", "\t\t\t\t\t\tpos := d.Pos()", "recseek:")
+	add("c06-recseek-tiff-errorf", "C06.loopguard", "format/tiff/tiff.go", "\t\t\t\t\t\t\td.Fatalf(\"ifd loop detected for %d\", ifdPos)", "\t\t\t\t\t\t\td.Errorf(\"ifd loop detected for %d\", ifdPos)", "recseek:")
 	// C06.nilfield
 	add("c06-nilfield-mp4-moof", "C06.nilfield", "format/mp4/boxes.go",
 		"\tcase \"trun\": // Track Fragment Run\n\t\tm := &moof{}\n\t\t// moof is nil if there was no tfhd box before\n\t\tif t := ctx.currentTrafBox(); t != nil && t.moof != nil {",
